@@ -252,6 +252,22 @@ theorem C05_derva_slice_s (v : View) (a : Addr) (size align sentinel : Nat) (hs 
     | diverge => exact absurd hL this
     | _ => intro h; cases h
 
+/-- Completeness of the sentinel read (the direction `C05_derva_slice_s` lacked): if the `n`-th element
+of the slice is the first one equal to the sentinel and lies inside the slice, the read succeeds with
+exactly the `n` elements before it. -/
+theorem C05_derva_slice_s_complete (v : View) (a : Addr) (size align sentinel : Nat) (hs : 1 ≤ size) (s : Ref)
+    (hat : v.at a 0 align = .ok s) (n : Nat) (hin : (n + 1) * size ≤ s.len)
+    (hsen : leN v.b (s.off + n * size) size = sentinel)
+    (hbefore : ∀ j, j < n → leN v.b (s.off + j * size) size ≠ sentinel) :
+    v.dervaSliceS a size align sentinel = .ok ⟨s.off, n * size, align⟩ := by
+  unfold View.dervaSliceS View.dervaSliceF
+  rw [hat]
+  dsimp only
+  have hle : n + 1 ≤ (n + 1) * size := Nat.le_mul_of_pos_right _ hs
+  rw [sliceFLoop_complete (b := v.b) (off := s.off) (blen := s.len) (stop := fun x => x == sentinel)
+    (s.len + 2) 0 n (Nat.zero_le _) hin (by omega) (by simpa using hsen)
+    (fun j _ hj => by simpa using hbefore j hj)]
+
 /-- C string: up to and including the first NUL of the slice; no NUL in the slice → `Encoding`. -/
 theorem C05_derva_cstr (v : View) (a : Addr) (s : Ref) (hat : v.at a 0 1 = .ok s) :
     (∀ ref, v.dervaCStr a = .ok ref →
@@ -339,5 +355,111 @@ example : fromBytes .pe32 .view demoImg = .ok demoView ∧ demoView.NoWrap ∧ s
     by rw [show imageBaseField .pe32 demoImg.bytes = 0x400000 by decide +kernel]; rfl⟩, ?_⟩
   unfold View.NoWrap
   decide +kernel
+
+/-! ### endpoint asymmetry of the two address conversions -/
+
+/-- `va_to_rva` accepts the one-past-the-end address `image_base + SizeOfImage` (its test is
+`va - image_base > size_of_image`, pe.rs:213) while `rva_to_va` rejects the rva `SizeOfImage` (its test
+is `rva < size_of_image`, pe.rs:187): the round trip of C05 holds on `(0, SizeOfImage)` only, and the
+two functions disagree at exactly one point.  Stated as the model and the Rust code behave. -/
+theorem C05_va_rva_endpoint (v : View) (h : 0 < sizeOfImage v.b) :
+    v.vaToRva (v.imageBase + sizeOfImage v.b) = .ok (sizeOfImage v.b) ∧
+    v.rvaToVa (sizeOfImage v.b) = .err .bounds ∧
+    (∀ d, 0 < d → v.vaToRva (v.imageBase + sizeOfImage v.b + d) = .err .bounds) ∧
+    (∀ d, v.rvaToVa (sizeOfImage v.b + d) = .err .bounds) := by
+  unfold View.vaToRva View.rvaToVa
+  refine ⟨?_, ?_, ?_, ?_⟩
+  · rw [if_neg (by omega), if_neg (by omega), Nat.add_sub_cancel_left]
+  · rw [if_neg (by omega), if_neg (by omega)]
+  · intro d hd
+    rw [if_neg (by omega), if_pos (by omega)]
+  · intro d
+    rw [if_neg (by omega), if_neg (by omega)]
+
+/-- the endpoint on the 200-byte PE32 view and on the PE32+ file (answers confirmed with the harness:
+`v2r f64 0x140000120` = `ok 288`, `r2v f64 288` = `err Bounds`) -/
+example : demoView.vaToRva (0x400000 + 200) = .ok 200 ∧ demoView.rvaToVa 200 = .err .bounds ∧
+    demoView.rvaToVa 199 = .ok (0x400000 + 199) ∧
+    demo64File.vaToRva (0x140000000 + 288) = .ok 288 ∧ demo64File.rvaToVa 288 = .err .bounds := by
+  decide +kernel
+
+/-! ### the wide string read itself -/
+
+/-- Length-prefixed wide string through `derva_string::<WideStr>` / `deref_string::<WideStr>`: with
+`s` the untyped slice (`slice(rva, 2, 2)` / `read(va, 2, 2)`) and `n` its first (length) word, the
+result is the first `2 + 2 * n` bytes of `s` (2-aligned) exactly when they fit into `s`; when they do
+not fit the answer is `Encoding` (`T::from_bytes(bytes).ok_or(Error::Encoding)`, pe.rs:383) — never a
+truncated string.  (When fewer than two bytes are available `slice` itself fails: `C05_derva_wstr_err`.) -/
+theorem C05_derva_wstr (v : View) (a : Addr) (s : Ref) (hat : v.at a 2 2 = .ok s) :
+    (∀ ref, v.dervaWStr a = .ok ref ↔
+        2 + 2 * le16 v.b s.off ≤ s.len ∧ ref = ⟨s.off, 2 + 2 * le16 v.b s.off, 2⟩) ∧
+    (s.len < 2 + 2 * le16 v.b s.off → v.dervaWStr a = .err .encoding) := by
+  unfold View.dervaWStr wstrFromBytes
+  rw [hat]
+  dsimp only
+  have e : (le16 v.b s.off + 1) * 2 = 2 + 2 * le16 v.b s.off := by omega
+  rw [e]
+  by_cases hc : 2 + 2 * le16 v.b s.off > s.len
+  · rw [if_pos hc]
+    refine ⟨fun ref => ⟨fun h => (by cases h), fun h => (by omega)⟩, fun _ => rfl⟩
+  · rw [if_neg hc]
+    refine ⟨fun ref => ⟨fun h => ?_, fun h => ?_⟩, fun h => (by omega)⟩
+    · cases h; exact ⟨by omega, rfl⟩
+    · rw [h.2]
+
+/-- whatever error the untyped primitive reports (Null, Misaligned, Bounds, ZeroFill, …) is the answer -/
+theorem C05_derva_wstr_err (v : View) (a : Addr) (e : Err) (hat : v.at a 2 2 = .err e) :
+    v.dervaWStr a = .err e := by
+  unfold View.dervaWStr
+  rw [hat]
+
+/-- on the PE32+ file: the wide string `2, 'a', 'b'` at rva 266; a length word of 7 (rva 260) does not
+fit the 12 bytes left → `Encoding`; an odd rva → `Misaligned`; the zero-filled tail → `ZeroFill` -/
+example : demo64File.at (.rva 266) 2 2 = .ok ⟨250, 6, 2⟩ ∧ demo64File.dervaWStr (.rva 266) = .ok ⟨250, 6, 2⟩ ∧
+    demo64File.dervaWStr (.va 0x14000010a) = .ok ⟨250, 6, 2⟩ ∧
+    demo64File.dervaWStr (.rva 260) = .err .encoding ∧ demo64File.dervaWStr (.rva 267) = .err .misaligned ∧
+    demo64File.dervaWStr (.rva 272) = .err .zeroFill := by
+  decide +kernel
+
+/-! ### `leN` made honest -/
+
+/-- `leN` — the value the model hands to the sentinel predicate and returns from `derva_copy` — is the
+little-endian value of the element exactly for the sizes of the integer types; for every other size
+it is 0 (`leN_other`), so `C05_derva_copy` / `C05_derva_slice_s` speak about the element VALUE only for
+sizes 1, 2, 4, 8 (the driver never evaluates it for the struct element types).  The two theorems
+below restate them against the size-independent specification `leValue`. -/
+theorem C05_leN_is_le_value (b : Bytes) (off size : Nat) :
+    (size = 1 ∨ size = 2 ∨ size = 4 ∨ size = 8 → leN b off size = leValue b off size) ∧
+    (¬ (size = 1 ∨ size = 2 ∨ size = 4 ∨ size = 8) → leN b off size = 0) :=
+  ⟨leN_eq_leValue b off size, leN_other b off size⟩
+
+/-- the limitation is real: three bytes `01 02 03` -/
+example : leN #[1, 2, 3] 0 3 = 0 ∧ leValue #[1, 2, 3] 0 3 = 0x030201 ∧ leN #[1, 2, 3] 0 2 = 0x0201 ∧
+    leValue #[1, 2, 3] 0 2 = 0x0201 := by decide
+
+/-- Unaligned copy of an integer: the little-endian value of the first `size` bytes of the untyped slice. -/
+theorem C05_derva_copy_le (v : View) (a : Addr) (size : Nat) (hs : size = 1 ∨ size = 2 ∨ size = 4 ∨ size = 8)
+    (x : Nat) :
+    v.dervaCopy a size = .ok x ↔ ∃ s, v.at a size 1 = .ok s ∧ x = leValue v.b s.off size := by
+  rw [C05_derva_copy]
+  simp only [leN_eq_leValue _ _ _ hs]
+
+/-- Sentinel-terminated array of integers, against `leValue`; with the completeness direction: the
+elements before the first sentinel inside the slice ARE returned. -/
+theorem C05_derva_slice_s_le (v : View) (a : Addr) (size align sentinel : Nat)
+    (hs : size = 1 ∨ size = 2 ∨ size = 4 ∨ size = 8) (s : Ref) (hat : v.at a 0 align = .ok s) :
+    (∀ ref, v.dervaSliceS a size align sentinel = .ok ref →
+        ∃ n, ref = ⟨s.off, n * size, align⟩ ∧ (n + 1) * size ≤ s.len ∧
+          leValue v.b (s.off + n * size) size = sentinel ∧
+          ∀ j, j < n → leValue v.b (s.off + j * size) size ≠ sentinel) ∧
+    (∀ n, (n + 1) * size ≤ s.len → leValue v.b (s.off + n * size) size = sentinel →
+        (∀ j, j < n → leValue v.b (s.off + j * size) size ≠ sentinel) →
+        v.dervaSliceS a size align sentinel = .ok ⟨s.off, n * size, align⟩) ∧
+    ((∀ j, (j + 1) * size ≤ s.len → leValue v.b (s.off + j * size) size ≠ sentinel) →
+        v.dervaSliceS a size align sentinel = .err .bounds) := by
+  have h1 : 1 ≤ size := by omega
+  simp only [← leN_eq_leValue _ _ _ hs]
+  obtain ⟨hA, hB, -⟩ := C05_derva_slice_s v a size align sentinel h1 s hat
+  exact ⟨hA, C05_derva_slice_s_complete v a size align sentinel h1 s hat, hB⟩
 
 end Pelite.Pe
